@@ -11,6 +11,9 @@ import json
 import sys
 
 
+ANY = "<any>"   # pseudo option: "an option that is not listed" (present on a side iff that side accepts such options)
+
+
 def coq_str(s):
     return '"' + str(s).replace('"', '""') + '"'
 
@@ -33,6 +36,75 @@ def schema_table(repo):
             seen += 1
         return n
 
+    def merge_all_of(o):
+        """allOf: the conjunction of its parts (properties and required are united, closed if one part is)"""
+        o = deref(o)
+        if not (isinstance(o, dict) and "allOf" in o):
+            return o
+        res = {k: v for k, v in o.items() if k != "allOf"}
+        for part in o["allOf"]:
+            part = merge_all_of(part)
+            if not isinstance(part, dict):
+                continue
+            for k, v in part.items():
+                if k == "properties":
+                    res.setdefault("properties", {}).update(v)
+                elif k == "required":
+                    res["required"] = sorted(set(res.get("required", [])) | set(v))
+                elif k == "additionalProperties":
+                    if v is False or "additionalProperties" not in res:
+                        res[k] = v
+                else:
+                    res.setdefault(k, v)
+        return res
+
+    def obj_alt(o):
+        """the object-with-properties reading of a schema node (directly, or the first such alternative of anyOf/oneOf)"""
+        o = merge_all_of(o)
+        if isinstance(o, dict) and "properties" in o:
+            return o
+        if isinstance(o, dict):
+            for key in ("anyOf", "oneOf"):
+                for alt in o.get(key, []):
+                    alt = deref(alt)
+                    if isinstance(alt, dict) and "properties" in alt:
+                        return alt
+        return None
+
+    def opts_of(cfg, depth):
+        req = set(cfg.get("required", []))
+        cond = set()
+        for key in ("oneOf", "anyOf", "allOf"):
+            for alt in cfg.get(key, []):
+                cond |= set(deref(alt).get("required", []))
+        opts = []
+        for on, o in cfg.get("properties", {}).items():
+            o = merge_all_of(o)
+            enum = None
+            if "enum" in o:
+                enum = [render(x) for x in o["enum"]]
+            elif "const" in o:
+                enum = [render(o["const"])]
+            r = "yes" if on in req else ("cond" if on in cond else "no")
+            rng = None
+            if enum is None and ("minimum" in o or "maximum" in o):
+                rng = [o.get("minimum"), o.get("maximum")]
+            sub, sub_elem = None, False
+            if depth < 3:
+                n = obj_alt(o)
+                if n is None and o.get("type") == "array" and isinstance(o.get("items"), dict):
+                    n = obj_alt(o["items"])
+                    sub_elem = n is not None
+                if n is not None:
+                    sub = opts_of(n, depth + 1)
+            opts.append({"name": on, "required": r, "enum": enum, "range": rng, "sub": sub, "sub_elem": sub_elem,
+                         "int": o.get("type") in ("integer", "number")})
+        if cfg.get("additionalProperties", True) is not False:
+            # an open object: options not listed are accepted too
+            opts.append({"name": ANY, "required": "no", "enum": None, "range": None, "sub": None, "sub_elem": False,
+                         "int": False})
+        return sorted(opts, key=lambda o: o["name"])
+
     md = deref(S["properties"]["mechanisms"])
     out = []
     for kind, arr in md.get("properties", {}).items():
@@ -44,30 +116,11 @@ def schema_table(repo):
             t = deref(props.get("type", {}))
             types = [t["const"]] if "const" in t else list(t.get("enum", []))
             cfg = deref(props["config"]) if "config" in props else None
-            opts = []
-            if cfg is not None:
-                req = set(cfg.get("required", []))
-                cond = set()
-                for key in ("oneOf", "anyOf", "allOf"):
-                    for alt in cfg.get(key, []):
-                        cond |= set(deref(alt).get("required", []))
-                for on, o in cfg.get("properties", {}).items():
-                    o = deref(o)
-                    enum = None
-                    if "enum" in o:
-                        enum = [render(x) for x in o["enum"]]
-                    elif "const" in o:
-                        enum = [render(o["const"])]
-                    r = "yes" if on in req else ("cond" if on in cond else "no")
-                    rng = None
-                    if enum is None and ("minimum" in o or "maximum" in o):
-                        rng = [o.get("minimum"), o.get("maximum")]
-                    opts.append({"name": on, "required": r, "enum": enum, "range": rng,
-                                 "int": o.get("type") in ("integer", "number")})
+            opts = opts_of(cfg, 0) if cfg is not None else []
             for ty in types:
                 out.append({"kind": kind, "type": ty, "has_config": cfg is not None,
                             "cfg_req": "config" in d.get("required", []),
-                            "opts": sorted(opts, key=lambda o: o["name"])})
+                            "opts": opts})
     return sorted(out, key=lambda m: (m["kind"], m["type"]))
 
 
@@ -75,13 +128,49 @@ def loader_table(path):
     L = json.load(open(path))["mechs"]
     out = []
     for m in L:
-        opts = [{"name": o["name"], "required": o["required"], "enum": o.get("oneof"), "range": o.get("range"), "int": o["go_type"].lstrip("*") in
-                 ("int", "int64", "uint", "uint64", "int32", "uint32", "float64")} for o in m["opts"]]
+        def conv(os_):
+            return sorted([{"name": o["name"], "required": o["required"], "enum": o.get("oneof"), "range": o.get("range"),
+                            "sub": conv(o["sub"]) if o.get("sub") else None, "sub_elem": bool(o.get("sub_elem")),
+                            "int": o["go_type"].lstrip("*") in ("int", "int64", "uint", "uint64", "int32", "uint32", "float64")}
+                           for o in os_], key=lambda o: o["name"])
+        opts = conv(m["opts"])
         out.append({"kind": m["kind"], "type": m["type"], "has_config": m["has_config"],
                     # a conditional requirement (required_without=...) also bites when there is no config at all
                     "cfg_req": any(o["required"] in ("yes", "cond") for o in opts),
                     "opts": sorted(opts, key=lambda o: o["name"])})
     return sorted(out, key=lambda m: (m["kind"], m["type"]))
+
+
+def flatten_pair(sopts, lopts, prefix=""):
+    """dotted option lists for both sides; below an option only when both sides describe a structure there
+    (one side alone — a decode hook, a free-form object — stays a leaf)"""
+    so = {o["name"]: o for o in (sopts or [])}
+    lo = {o["name"]: o for o in (lopts or [])}
+    fs, fl = [], []
+    for n in sorted(set(so) | set(lo)):
+        a, b = so.get(n), lo.get(n)
+        for side, o, acc in (("s", a, fs), ("l", b, fl)):
+            if o is not None:
+                acc.append({"name": prefix + n, "required": o["required"], "enum": o["enum"], "range": o.get("range"),
+                            "int": o.get("int", False)})
+        if a and b and a.get("sub") and b.get("sub") and bool(a.get("sub_elem")) == bool(b.get("sub_elem")):
+            sep = "[]." if a.get("sub_elem") else "."
+            s2, l2 = flatten_pair(a["sub"], b["sub"], prefix + n + sep)
+            fs += s2
+            fl += l2
+    return fs, fl
+
+
+def flatten_tables(stbl, ltbl):
+    lby = {(m["kind"], m["type"]): m for m in ltbl}
+    sby = {(m["kind"], m["type"]): m for m in stbl}
+    for k in set(lby) | set(sby):
+        a, b = sby.get(k), lby.get(k)
+        fs, fl = flatten_pair(a["opts"] if a else [], b["opts"] if b else [])
+        if a:
+            a["opts"] = sorted(fs, key=lambda o: o["name"])
+        if b:
+            b["opts"] = sorted(fl, key=lambda o: o["name"])
 
 
 def coq_table(name, tbl):
@@ -130,6 +219,46 @@ BASE = {
 }
 
 
+import copy
+
+
+def _walk(cfg, name, create=False):
+    """(container, last key) for a dotted option name inside a config object ("a.b", "a[].b": first element)"""
+    parts = name.split(".")
+    cur = cfg
+    for part in parts[:-1]:
+        elem = part.endswith("[]")
+        key = part[:-2] if elem else part
+        if not isinstance(cur, dict) or key not in cur:
+            return None, None
+        cur = cur[key]
+        if elem:
+            if not isinstance(cur, list) or not cur:
+                return None, None
+            cur = cur[0]
+    if not isinstance(cur, dict):
+        return None, None
+    return cur, parts[-1]
+
+
+def with_value(base, name, value):
+    cfg = copy.deepcopy(base or {})
+    cur, key = _walk(cfg, name)
+    if cur is None:
+        return None
+    cur[key] = value
+    return cfg
+
+
+def without(base, name):
+    cfg = copy.deepcopy(base or {})
+    cur, key = _walk(cfg, name)
+    if cur is None or key not in cur:
+        return None
+    del cur[key]
+    return cfg
+
+
 def probes(stbl, ltbl):
     by = {}
     for side, tbl in (("s", stbl), ("l", ltbl)):
@@ -141,14 +270,27 @@ def probes(stbl, ltbl):
         known = (kind, ty) in BASE
         base = BASE.get((kind, ty))
         has_cfg = any(m["has_config"] for m in sides.values())
-        out.append({"kind": kind, "type": ty, "opts": [], "config": base, "controlled": known, "what": "control"})
+
+        def add(what, opts, cfg, controlled, missing=()):
+            out.append({"kind": kind, "type": ty, "opts": opts, "missing": list(missing), "config": cfg,
+                        "controlled": controlled, "what": what})
+
+        add("control", [], base, known)
         if base is not None or not known:
-            out.append({"kind": kind, "type": ty, "opts": [], "config": None, "controlled": True, "what": "no-config"})
+            add("no-config", [], None, True)
         names = {}
         for side, m in sides.items():
             for o in m["opts"]:
                 names.setdefault(o["name"], {})[side] = o
+        nested_parents = set()
         for n, os_ in sorted(names.items()):
+            if n.endswith(ANY):
+                if "." in n:
+                    nested_parents.add(n.rsplit(".", 1)[0])
+                continue
+            nested = "." in n
+            if nested:
+                nested_parents.add(n.rsplit(".", 1)[0])
             enums = [o["enum"] for o in os_.values() if o["enum"] is not None]
             for o in os_.values():
                 rg = o.get("range")
@@ -163,22 +305,30 @@ def probes(stbl, ltbl):
                 is_int = all(v.lstrip("-").isdigit() for v in vals)
                 outside = "200" if is_int else "zz_outside"
                 for v in vals + [outside]:
-                    cfg = dict(base or {})
-                    cfg[n] = int(v) if is_int else v
-                    out.append({"kind": kind, "type": ty, "opts": [[n, v]], "config": cfg, "controlled": known,
-                                "what": "enum-outside" if v == outside else "enum-value"})
+                    cfg = with_value(base, n, int(v) if is_int else v)
+                    if cfg is not None:
+                        add("enum-outside" if v == outside else "enum-value", [[n, v]], cfg, known)
             if len(os_) == 1:
-                cfg = dict(base or {})
-                cfg[n] = "x"
-                out.append({"kind": kind, "type": ty, "opts": [[n, "x"]], "config": cfg, "controlled": False,
-                            "what": "one-sided-option"})
+                cfg = with_value(base, n, "x")
+                if cfg is not None:
+                    add("one-sided-option", [[n, "x"]], cfg, False)
+            # a required option left out (only where the base holds it)
+            if known and any(o["required"] == "yes" for o in os_.values()):
+                cfg = without(base, n)
+                if cfg is not None:
+                    add("required-missing", [], cfg, True, missing=[n])
         if has_cfg:
             cfg = dict(base or {})
             cfg["zz_unknown"] = 1
-            out.append({"kind": kind, "type": ty, "opts": [["zz_unknown", "1"]], "config": cfg, "controlled": known,
-                        "what": "unknown-option"})
+            add("unknown-option", [[ANY, "1"]], cfg, known)
+        # an unknown option inside every nested object the base holds
+        for parent in sorted(nested_parents):
+            cfg = with_value(base, parent + ".zz_unknown", 1)
+            if cfg is not None:
+                add("unknown-nested-option", [[parent + "." + ANY, "1"]], cfg, known)
     for kind in kinds:
-        out.append({"kind": kind, "type": "zz_bogus", "opts": [], "config": None, "controlled": True, "what": "bogus-type"})
+        out.append({"kind": kind, "type": "zz_bogus", "opts": [], "missing": [], "config": None, "controlled": True,
+                    "what": "bogus-type"})
     return out
 
 
@@ -198,6 +348,7 @@ def main():
     out_v = out_dir + "/SchemaTables.v"
     stbl = schema_table(repo)
     ltbl = loader_table(loader_json)
+    flatten_tables(stbl, ltbl)
     write_if_changed(out_v,
                      "(** GENERATED on every run by harness/tools/schema (gen.py + the Go extractor) from\n"
                      "    schema/config.schema.json and internal/rules/mechanisms/*: do not edit. *)\n"
